@@ -7,6 +7,7 @@ gpytorch/functions/_log_normal_cdf.py and the likelihood files (`Gen.Quadrature`
 -/
 import GPVerif.Bridge.Quadrature
 import GPVerif.Bridge.GaussMoments
+import GPVerif.Bridge.Probit
 import Mathlib.MeasureTheory.Measure.Dirac
 import Mathlib.Tactic.Push
 
@@ -218,12 +219,12 @@ theorem bernoulli_link (m v : ℝ) :
     bernoulliLink m v = m / √(1 + v) ∧ bernoulliLink (-m) v = -bernoulliLink m v ∧ bernoulliLink m 0 = m := by
   simp [bernoulliLink, neg_div]
 
-/-- **probit_identity_partial** — `E_{N(m,v)} Φ(f) = Φ(m/√(1+v))` is a Gaussian-integral identity outside
-the available library: compared numerically (mpmath, 30 digits).  Proved: the degenerate case `v = 0`
-(`N(m,0)` is the point mass at `m`) for every measurable-or-not link `Φ`. -/
-theorem probit_identity_partial (Phi : ℝ → ℝ) (m : ℝ) :
-    ∫ f, Phi f ∂(gaussianReal m 0) = bernoulliMarginal Phi m 0 := by
-  rw [gaussianReal_zero_var, integral_dirac]
+/-- **probit_identity** — the analytic Bernoulli marginal: for every mean `m` and variance `v ≥ 0`,
+`E_{f ~ N(m,v)} Φ(f) = Φ(m/√(1+v))`, the right-hand side being the generated `BernoulliLikelihood.marginal`
+expression with `Φ` the standard normal cdf (`Φ(f) = P(Z ≤ f)`, `Z − f ~ N(−m, 1+v)`; `Bridge/Probit.lean`). -/
+theorem probit_identity (m : ℝ) (v : ℝ≥0) :
+    ∫ f, Probit.Phi f ∂(gaussianReal m v) = bernoulliMarginal Probit.Phi m (v : ℝ) := by
+  rw [Probit.probit_identity]
   simp [bernoulliMarginal, bernoulliLink]
 
 /-- `BetaLikelihood.forward`: with mixture `μ = sigmoid f` the concentrations are `μ·s + 1` and
@@ -241,6 +242,38 @@ theorem bernoulli_sign : bernoulliSign (0 : ℝ) = -1 ∧ bernoulliSign (1 : ℝ
     ∀ f s : ℝ, bernoulliElpArg f s = f * s := by
   simp only [bernoulliSign, bernoulliElpArg, Nat.cast_ofNat, Nat.cast_one]
   refine ⟨by norm_num, by norm_num, fun _ _ => trivial⟩
+
+/-! ### wiring of `_OneDimensionalLikelihood` and construction histories -/
+
+/-- `expected_log_prob` is the rule applied to the conditional log density itself, `log_marginal` is the `log` of the
+rule applied to the conditional density `exp ∘ logp` (generated wiring). -/
+theorem one_dim_objectives (rule : List (ℝ × ℝ)) (logp : ℝ → ℝ) (m v : ℝ) :
+    expectedLogProb rule logp m v = ghApply rule logp m v ∧
+    logMarginal rule logp m v = Real.log (ghApply rule (fun f => Real.exp (logp f)) m v) := by
+  simp [expectedLogProb, logMarginal, oneDimExpectedLogProb, oneDimLogMarginal]
+
+/-- hence a polynomial conditional log density of degree `< D` has an exact `expected_log_prob` -/
+theorem elp_exact_poly (rule : List (ℝ × ℝ)) (D : ℕ) (hD : 0 < D) (H : ExactOnHermiteWeight rule D)
+    (m : ℝ) (v : ℝ≥0) (cs : List ℝ) (hlen : cs.length ≤ D) :
+    expectedLogProb rule (polyEval cs) m v = polyExpect cs m (v : ℝ) := by
+  rw [(one_dim_objectives rule (polyEval cs) m v).1, gh_exact_poly rule D hD H m v cs hlen]
+
+/-- **one_rule_per_instance** — in every construction history each likelihood carries the node count of the setting
+active at ITS construction: what was built before (under other settings) and what is built afterwards is irrelevant. -/
+theorem one_rule_per_instance (pre post : List BuildOp) : ∀ s : ℕ,
+    builtCounts s (pre ++ BuildOp.build :: post) =
+      builtCounts s pre ++ activeSetting s pre :: builtCounts (activeSetting s pre) post := by
+  induction pre with
+  | nil => intro s; simp [builtCounts, activeSetting, ghqInitNumLocs, likelihoodQuadratureArg]
+  | cons op pre ih =>
+    intro s
+    cases op with
+    | setting n => simpa [builtCounts, activeSetting] using ih n
+    | build => simpa [builtCounts, activeSetting] using ih s
+
+/-- `SoftmaxLikelihood.forward`: logits are `f Wᵀ` with mixing weights and `f` without. -/
+theorem softmax_logits {F W : Type} (mulT : F → W → F) (f : F) (w : W) :
+    softmaxLogits mulT f (some w) = mulT f w ∧ softmaxLogits mulT f (none : Option W) = f := ⟨rfl, rfl⟩
 
 /-! ### the hypotheses are satisfiable -/
 
